@@ -88,6 +88,8 @@ type blockCtx struct {
 	NextAddr   uint64
 	NextClass  uint64
 	Tour       bool // the block carries one transaction of every kind, boundary-valued and random (field coverage tour)
+	NoTx       bool // directed: an empty block (header transaction count 0)
+	NoEvents   bool // directed: transactions whose receipts carry no event (header event count 0)
 }
 
 type Built struct {
@@ -485,6 +487,11 @@ func genBlock(seed uint64, ctx blockCtx) (*Built, blockCtx) {
 	if ctx.Tour { // one transaction of every kind, at its boundary values and at random values
 		nTx = 2 * nKinds
 	}
+	if ctx.NoTx {
+		nTx = 0
+	} else if ctx.NoEvents && nTx == 0 {
+		nTx = 2
+	}
 	for i := 0; i < nTx; i++ {
 		tx, kind := core.Transaction(nil), ""
 		if ctx.Tour {
@@ -493,6 +500,9 @@ func genBlock(seed uint64, ctx blockCtx) (*Built, blockCtx) {
 			tx, kind = genTx(tr, ctx.Version)
 		}
 		rc := genReceipt(tr, tx, strings.HasSuffix(kind, "(boundary)"))
+		if ctx.NoEvents {
+			rc.Events = nil
+		}
 		txs = append(txs, tx)
 		rcs = append(rcs, rc)
 		kinds = append(kinds, kind)
@@ -558,6 +568,26 @@ func planTour(seed uint64) chainPlan {
 	var p chainPlan
 	for _, v := range []string{"0.12.3", "0.13.3", "0.14.1"} {
 		ctx.Version = v
+		s := r.U64()
+		_, next := genBlock(s, ctx)
+		p.Seeds = append(p.Seeds, s)
+		p.Ctxs = append(p.Ctxs, ctx)
+		ctx = next
+	}
+	return p
+}
+
+// planSparse: the block shapes whose header counts are zero - an empty block and a block whose transactions emit no
+// event - under both hash formats with state-diff commitment, every tampering applied (body-only additions that leave
+// the header counts alone included). Added after the round-5 seed header-count-gates-commitments was detected only when
+// the time-budgeted random chains happened to produce such a block.
+func planSparse(seed uint64) chainPlan {
+	r := hx.NewRNG(seed ^ 0x5ba75e)
+	ctx := blockCtx{Number: 0, Timestamp: 1_700_000_000, NextAddr: 100, NextClass: 500}
+	var p chainPlan
+	for i, v := range []string{"0.13.3", "0.13.3", "0.14.1", "0.14.1"} {
+		ctx.Version = v
+		ctx.NoTx, ctx.NoEvents = i%2 == 0, i%2 == 1
 		s := r.U64()
 		_, next := genBlock(s, ctx)
 		p.Seeds = append(p.Seeds, s)
